@@ -45,8 +45,17 @@ thread_local! {
 pub fn cur() -> Option<u64> {
     CUR.with(|c| c.borrow().last().copied())
 }
+thread_local! {
+    /// the span that is current *around* the poll in progress (the executor's outer span, or the
+    /// driver span it entered for this poll); None without one
+    pub static CTX: Cell<Option<u64>> = const { Cell::new(None) };
+}
+/// what a body effect records as "current span" when the current span is just the ambient one
+pub const AMBIENT: Option<u64> = Some(u64::MAX - 7);
 pub fn fx(k: u32) {
-    let e = (SLOT.with(|s| s.get()), Fx::Mark(k, cur()));
+    let c = cur();
+    let c = if c == CTX.with(|x| x.get()) { AMBIENT } else { c };
+    let e = (SLOT.with(|s| s.get()), Fx::Mark(k, c));
     FX.with(|f| f.borrow_mut().push(e));
 }
 
